@@ -127,3 +127,11 @@ reg("C08",
     explanation="all graphs of 2 named types (alias / object with 0-2 members / union with 1-2 members over declared and undeclared leaves and references through optional/list/set/map) and of 3 types forming cycles, x every permutation of the endpoints that first touch them; hundreds of disjointly named copies are packed into one IR per generator run; markers are read back from the emitted sync and async server traits with syn; plus the argument-level rule (explicit safety, legacy marker, tag) over 14 argument types x 10 declarations",
     level_text="Explicit-state model checking of the log-safety computation: every state (graph, order) of the bounded space is executed on the real generator and compared with a specification-level model (boolean greatest fixed point), with order-independence checked as a second oracle.",
     level_note="Trusted: the fixed-point model (30 lines); syn to read the generated traits. Graphs with more than 3 types or more than 2 members per type are assumed to behave like compositions of the enumerated ones.")
+
+reg("C20",
+    packages=["cgorder"], bin="cgorder", level="exploration", engine="E5 cgorder",
+    technique="exhaustive enumeration of (program, configuration, entry point, owned hash seed) with every generation in a fresh process/directory under an LD_PRELOAD getrandom shim; byte-wise tree comparison and strace file-activity oracle",
+    design_ref="DESIGN.md §3 C20",
+    explanation="the repository's IR files, the universal HTTP IR and a multi-package IR with errors/services/extensions; flag configurations (exhaustive, serializeEmptyCollections, stripPrefix, crate output with product/crate versions); library Config vs `conjure-rust generate`; S owned hash seeds; different output path and working directory per run; first run of each traced with strace",
+    level_text="Exhaustive over the owned nondeterminism that exists (the process hash seed, made a harness choice by the shim) within the seed set, and over the configuration product; replayable because the seed is owned.",
+    level_note="Trusted: the LD_PRELOAD shim reaches std's RandomState through libc getrandom (verified: the probe sees different HashMap orders per seed); strace for file activity. Seeds are not iteration orders: large tables are only sampled by the seed set, and the evidence says how many distinct orders the probe saw.")
